@@ -49,7 +49,7 @@ let process line =
   let pos = ref 0 in
   let next () = let v = int_of_string toks.(!pos) in incr pos; v in
   let p_ = next () in let two = next () in let ign = next () in let src = next () in let dst = next () in
-  let mode = (next ()) mod 4 in   (* +4/+8: build() called twice on one object; the model is the code after fixes/C05-1 (build starts from scratch) *)
+  let mode0 = next () in let mode = mode0 mod 4 in   (* +4/+8: build() called twice on one object; the model is the code after fixes/C05-1 (build starts from scratch) *)
   let pol0 = next () in let pol = pol0 mod 2 and dt = (pol0 / 2) mod 2 <> 0 and cgs = (pol0 / 4) mod 2 <> 0 && (mode <> 1) and sep = (pol0 / 8) mod 2 <> 0 in   (* +2: DatatypeCommunicator phases 3/4, spec only *) let _seed = next () in let ng = next () in
   let sz = Array.init ng (fun _ -> next ()) in
   let read_set () = let n = next () in let es = List.init n (fun _ -> let g = next () in let l = next () in let a = next () in let pub = next () in { g; l; a; pub }) in
@@ -64,13 +64,18 @@ let process line =
   let dec = List.map (fun (s, t) -> (c05_sort s, c05_sort t)) dec_raw in
   let ranks = List.init p_ (fun i -> i) in
   let rmaps = List.map (fun p -> c05_remote_of two_b ign_b dec (nat_of_int p)) ranks in
-  let ifs = List.map (fun rm -> c05_interface_build fsrc fdst rm) rmaps in
+  let ifs = List.map (fun rm -> c05_iobj_run [C05_IBuild (fsrc, fdst, rm); C05_IStrip]) rmaps in   (* the Interface object: build(), strip() *)
   let szs = List.map (fun r -> sizes mode sz r.s r.caps) rss and szt = List.map (fun r -> sizes mode sz r.t r.capt) rss in
   let ifs_ok = List.for_all (fun o -> o <> None) ifs in
   let ifs' = List.map (function Some m -> m | None -> []) ifs in
   let d0s = List.mapi (fun p s -> mk_data 0 p 0 s) szs and d0t = List.mapi (fun p s -> mk_data 0 p 1 s) szt in
-  let cms = List.map2 (fun (m, ds) dt -> c05_comm_build (fun l -> c05_getsize ds l) (fun l -> c05_getsize (if tc then dt else ds) l) m)
-              (List.combine ifs' d0s) d0t in
+  let rebuild = mode0 / 4 in                       (* 0: build; 1: build(pre), build; 2: build(pre), free, build *)
+  let cms = List.mapi (fun p ((m, ds), dt) ->
+      let szs' = (fun l -> c05_getsize ds l) and szd' = (fun l -> c05_getsize (if tc then dt else ds) l) in
+      let pre = match c05_interface_build C05_All C05_All (List.nth rmaps p) with Some x -> x | None -> [] in
+      let hist = (if rebuild >= 1 then [C05_BBuild (szs', szd', pre)] else []) @ (if rebuild = 2 then [C05_BFree] else [])
+                 @ [C05_BBuild (szs', szd', m); C05_BCommunicate; C05_BCommunicate; C05_BCommunicate] in
+      c05_bobj_run hist) (List.combine (List.combine ifs' d0s) d0t) in
   (* phases *)
   let order_dep = ref false in
   let phase_strs = List.map (fun ph ->
@@ -115,6 +120,20 @@ let process line =
         let r3 = c05_dt_phase true types ds3 dt3 orders in
         let (ds4, dt4) = mk 4 in
         let r4 = c05_dt_phase false types dt4 ds4 orders in
+        (* the same through the persistent requests of createRequests: container and datatype of every request *)
+        let via_requests fwd sdat rdat =
+          List.mapi (fun q tq ->
+            let (recvs, _) = if fwd then c05_dt_forward_requests tq else c05_dt_backward_requests tq in
+            let cont_of pp c = match c with C05_SendData -> List.nth sdat pp | C05_ReceiveData -> List.nth rdat pp in
+            let into = match recvs with r :: _ -> cont_of q r.c05_rq_cont | [] -> (if fwd then List.nth rdat q else List.nth sdat q) in
+            let rT pp = match List.find_opt (fun r -> r.c05_rq_proc = pp) recvs with Some r -> r.c05_rq_type | None -> [] in
+            let msg pp =
+              let pi = int_of_nat pp in
+              let (_, sends) = if fwd then c05_dt_forward_requests (List.nth types pi) else c05_dt_backward_requests (List.nth types pi) in
+              match List.find_opt (fun r -> int_of_nat r.c05_rq_proc = q) sends with
+              | Some r -> c05_dt_pack (cont_of pi r.c05_rq_cont) r.c05_rq_type | None -> [] in
+            c05_dt_recv rT msg (List.nth orders q) into) types in
+        if via_requests true ds3 dt3 <> r3 || via_requests false ds4 dt4 <> r4 then order_dep := true;
         let d3 = List.nth r3 p and d4 = List.nth r4 p in
         Printf.sprintf " DT[%s] P3[D:%s T:%s] P4[D:%s T:%s]" dts
           (data_str (if tc then List.nth ds3 p else d3)) (data_str d3)
